@@ -49,6 +49,13 @@ def universe(tier):
     g = grammar(rule('s', seq(call('id'), eof())), rule('id', pat(list('abcd'), 1, True), isname=True), keywords=kws)
     items.append({'g': g, 'texts': [list(w) for w in two] + [list('abc'), list('a'), list('aab'), list(' ab')], 'label': 'table13',
                   'ic': 'off', 'kws': kws})
+    # the reserved-word check is independent of the other decorators of the rule (@nomemo, a token-rule name, parameters)
+    for name in ('closure', 'kw-then-name', 'lookahead', 'closure-alt'):
+        e = shapes(idpat)[name]
+        g = grammar(rule('s', e), rule('id', idpat, isname=True, nomemo=True), keywords=['if', 'x'])
+        items.append({'g': g, 'texts': texts, 'label': f'{name}/name+nomemo', 'ic': 'off', 'kws': ['if', 'x']})
+        g = grammar(rule('s', e), rule('id', idpat, isname=True, params=['T']), keywords=['if', 'x'])
+        items.append({'g': g, 'texts': texts, 'label': f'{name}/name+params', 'ic': 'setting', 'kws': ['if', 'x']})
     quoted = grammar(rule('s', seq(star(call('id')), eof())), rule('id', idpat, isname=True), keywords=['if', 'fi'])
     items.append({'g': quoted, 'texts': texts, 'label': 'quoted-keywords', 'ic': 'off', 'kws': ['if', 'fi'], 'quoted': True})
     return items
